@@ -3,6 +3,8 @@
 -/
 import DDV.Gen.AddrSem
 import DDV.Props.C05
+import DDV.Gen.Emit
+import DDV.Gen.Lemmas.Claimed
 
 namespace DDV.Props.C04
 open DDV.Gen
@@ -120,5 +122,51 @@ example : evalChain [({ cfg := none, name := "blk", address := 16, allowAddressO
                          repeat_ := some ⟨3, -4⟩, kind := .block }, 2),
                      ({ cfg := none, name := "r", address := -1, allowAddressOverlap := false,
                          repeat_ := none, kind := .register }, 0)] 0 = some 7 := by decide
+
+/-! ### `read_all_registers` visits exactly the readable registers, every index, in declaration order -/
+
+/-- **Which reads.** `(m, i)` is read by `read_all_registers` of a block iff `m` is a register
+    accessor of that block whose access includes reading and `i` is one of its repeat indices. -/
+theorem read_all_visits_iff (ms : List Method) (m : Method) (i : Nat) :
+    (m, i) ∈ readAllVisits ms ↔ m ∈ ms ∧ m.readAllReads = true ∧ i < m.count := by
+  unfold readAllVisits
+  simp only [List.mem_flatMap]
+  constructor
+  · intro ⟨m', hm', h⟩
+    by_cases hr : m'.readAllReads = true
+    · rw [if_pos hr] at h
+      obtain ⟨j, hj, heq⟩ := List.mem_map.1 h
+      cases heq
+      exact ⟨hm', hr, by rw [← repTriple_count]; exact List.mem_range.1 hj⟩
+    · rw [if_neg hr] at h; cases h
+  · intro ⟨h1, h2, h3⟩
+    refine ⟨m, h1, ?_⟩
+    rw [if_pos h2]
+    exact List.mem_map.2 ⟨i, List.mem_range.2 (by rw [repTriple_count]; exact h3), rfl⟩
+
+/-- **In which order.** Declaration order of the accessors, ascending index within one accessor,
+    every index exactly once. -/
+theorem read_all_visits_order (ms₁ ms₂ : List Method) :
+    readAllVisits (ms₁ ++ ms₂) = readAllVisits ms₁ ++ readAllVisits ms₂ := by
+  unfold readAllVisits; simp [List.flatMap_append]
+
+theorem read_all_visits_single (m : Method) (h : m.readAllReads = true) :
+    readAllVisits [m] = (List.range m.count).map fun i => (m, i) := by
+  unfold readAllVisits
+  simp [h, repTriple_count]
+
+theorem read_all_skips (m : Method) (h : m.readAllReads = false) : readAllVisits [m] = [] := by
+  unfold readAllVisits; simp [h]
+
+/-- The access markers: only `RW` and `RO` registers are read. -/
+theorem read_all_reads_iff (m : Method) :
+    m.readAllReads = true ↔ m.kind = .register ∧ (m.access = some .rw ∨ m.access = some .ro) := by
+  unfold Method.readAllReads
+  cases hk : m.kind <;> cases ha : m.access with
+  | none => simp
+  | some a => cases a <;> simp [Access.readable]
+
+/-- The emitted items are the visits, one to one and in the same order. -/
+theorem read_all_items (ms : List Method) : readAllJson ms = (readAllVisits ms).map readAllItem := rfl
 
 end DDV.Props.C04
